@@ -160,7 +160,14 @@ def construct(c, sd=None):
     if c.get("pixel_size") is not None:
         kw["pixel_size"] = c["pixel_size"]
     if sd is not None:
-        kw.update(weight=unit_weight, weight_params={}, kernel="gaussian", kernel_params={"sigma": float(sd) ** 2})
+        pk = c.get("probe_kernel", "iso")
+        if pk == "uniform":            # a box of half-width 5 sd: as concentrated as the Gaussian's 10 sd
+            kw.update(weight=unit_weight, weight_params={}, kernel="uniform", kernel_params={"width": 10.0 * float(sd), "height": 8.0 * float(sd)})
+        elif pk == "aniso":            # unequal variances, zero covariance: not the isotropic fast path
+            kw.update(weight=unit_weight, weight_params={}, kernel="gaussian",
+                      kernel_params={"sigma": np.array([[float(sd) ** 2, 0.0], [0.0, (0.8 * float(sd)) ** 2]])})
+        else:
+            kw.update(weight=unit_weight, weight_params={}, kernel="gaussian", kernel_params={"sigma": float(sd) ** 2})
     return PI()(**kw)
 
 
@@ -696,6 +703,9 @@ class HGen:
         if r.random() < 0.6 or self.mode in ("dya", "int", "decoff"):
             c["pers_range"] = list(self.rng_())
         n = r.choice([0, 1, 2, 3]) if r.random() < 0.35 else r.randint(0, nmax)
+        # the probe kernel (it does not touch the geometry): the isotropic Gaussian takes the imager's fast path, the other two
+        # its general kernel path, where the image is assembled differently
+        c["probe_kernel"] = r.choice(["iso", "iso", "aniso", "uniform"])
         return {"ctor": c, "ops": [self.op() for _ in range(n)]}
 
 
